@@ -252,24 +252,24 @@ Proof.
     destruct pr; destruct (String.eqb pp ""); destruct st; simpl; intro Hf; try discriminate Hf; reflexivity.
 Qed.
 
-(* every accepted section is valid, provided os.Stat either succeeded or answered "does not exist" *)
+(* every accepted section is valid, whatever os.Stat answers *)
 Theorem db_validate_sound :
-  forall c st, st <> StatError -> db_validate (Some c) st = Accept -> db_ok c st.
+  forall c st, db_validate (Some c) st = Accept -> db_ok c st.
 Proof.
-  intros c st Hst Hacc. apply db_okb_iff. revert Hacc.
+  intros c st Hacc. apply db_okb_iff. revert Hacc.
   destruct c as [e sp h p u d pr pp]. unfold db_okb, db_validate, is_empty. simpl.
   destruct (String.eqb_spec e "sqlite") as [H1|H1]; destruct (String.eqb_spec e "postgres") as [H2|H2];
     [exfalso; rewrite H1 in H2; discriminate H2 | | | ];
     destruct (String.eqb sp ""); destruct (String.eqb h ""); destruct (N.eqb p 0); destruct (String.eqb u ""); destruct (String.eqb d "");
     destruct pr; destruct (String.eqb pp ""); destruct st; simpl; intro Hf; try discriminate Hf;
-    try reflexivity; exfalso; apply Hst; reflexivity.
+    reflexivity.
 Qed.
 
 Theorem db_validate_iff :
-  forall c st, st <> StatError -> (db_validate (Some c) st = Accept <-> db_ok c st).
+  forall c st, db_validate (Some c) st = Accept <-> db_ok c st.
 Proof.
-  intros c st Hst. split.
-  - apply db_validate_sound. exact Hst.
+  intros c st. split.
+  - apply db_validate_sound.
   - apply db_validate_complete.
 Qed.
 
@@ -278,9 +278,11 @@ Qed.
 Example db_validate_iff_example :
   let c := mk_dbcfg "postgres" "" "localhost" 5432 "user" "bhs" true "./data/blockheaders.csv.gz" in
   db_validate (Some c) Found = Accept /\ db_ok c Found
-  /\ db_validate (Some c) NotExist = RejPreparedMissing /\ ~ db_ok c NotExist.
+  /\ db_validate (Some c) NotExist = RejPreparedMissing /\ ~ db_ok c NotExist
+  /\ db_validate (Some c) StatError = RejPreparedMissing /\ ~ db_ok c StatError.
 Proof.
   simpl. split; [reflexivity|]. split; [apply db_okb_iff; reflexivity|]. split; [reflexivity|].
+  split; [intro Hok; apply db_okb_iff in Hok; discriminate Hok|]. split; [reflexivity|].
   intro Hok. apply db_okb_iff in Hok. discriminate Hok.
 Qed.
 
@@ -288,8 +290,8 @@ Qed.
 Theorem db_validate_order :
   forall c st,
     (prepared c = true -> prepared_path c = "" -> db_validate (Some c) st = RejPreparedPathEmpty)
-    /\ (prepared c = true -> prepared_path c <> "" -> st = NotExist -> db_validate (Some c) st = RejPreparedMissing)
-    /\ ((prepared c = false \/ (prepared_path c <> "" /\ st <> NotExist)) ->
+    /\ (prepared c = true -> prepared_path c <> "" -> st <> Found -> db_validate (Some c) st = RejPreparedMissing)
+    /\ ((prepared c = false \/ (prepared_path c <> "" /\ st = Found)) ->
         db_validate (Some c) st =
         if String.eqb (engine c) "sqlite" then (if is_empty (sqlite_path c) then RejSqliteEmpty else Accept)
         else if String.eqb (engine c) "postgres" then
@@ -299,24 +301,11 @@ Theorem db_validate_order :
 Proof.
   intros [e sp h p u d pr pp] st. unfold db_validate. simpl. repeat split.
   - intros Hpr Hpp. subst. reflexivity.
-  - intros Hpr Hpp Hst. subst. apply is_empty_false in Hpp. rewrite Hpp. reflexivity.
+  - intros Hpr Hpp Hst. subst pr. apply is_empty_false in Hpp. rewrite Hpp.
+    destruct st; [exfalso; apply Hst; reflexivity | reflexivity | reflexivity].
   - intros [Hpr | [Hpp Hst]].
     + subst. reflexivity.
-    + apply is_empty_false in Hpp. rewrite Hpp. rewrite andb_false_r.
-      destruct st; simpl; rewrite ?andb_false_r; [reflexivity | exfalso; apply Hst; reflexivity | reflexivity].
-Qed.
-
-(* the unrestricted equivalence is FALSE for the code as it is: fileExists is `!os.IsNotExist(err)`, so any
-   other os.Stat error (ENOTDIR for a path through a regular file, ENAMETOOLONG, EACCES, ...) counts as
-   "exists" and a section whose prepared-database file is not there is accepted *)
-Theorem db_validate_iff_refuted :
-  ~ (forall c st, db_validate (Some c) st = Accept <-> db_ok c st).
-Proof.
-  intro Hall.
-  pose (c := mk_dbcfg "sqlite" "./data/blockheaders.db" "" 0 "" "" true "/etc/hostname/headers.csv.gz").
-  assert (Hacc : db_validate (Some c) StatError = Accept) by reflexivity.
-  apply (Hall c StatError) in Hacc. destruct Hacc as [_ Hp].
-  destruct (Hp eq_refl) as [_ Hst]. discriminate Hst.
+    + apply is_empty_false in Hpp. rewrite Hpp. subst st. simpl. rewrite !andb_false_r. reflexivity.
 Qed.
 
 (* ------------------------------------------------------------------------------------------------ *)
